@@ -711,8 +711,11 @@ func main() {
 			items = append(items, item{l: l, ks: ks})
 		}
 	}
-	// order: key-assigning statements, trees with at most one atom, the history family,
-	// two-atom trees (so that a time cap under heavy load leaves each part started)
+	// order: key-assigning statements first, then trees with at most one atom, the history
+	// family and two-atom trees interleaved round-robin (each simplest-first), so that a
+	// time cap under heavy machine load cuts all three at a comparable depth
+	keyItems := items
+	items = nil
 	var pairItems []item
 	// simplest trees first, all layouts and templates inside each tree
 	for tri, tr := range trees {
@@ -758,7 +761,28 @@ func main() {
 			items = append(items, item{l: l, ks: -1, hist: hi + 1})
 		}
 	}
-	items = append(items, pairItems...)
+	{
+		var singles, histItems []item
+		for _, it := range items {
+			if it.hist > 0 {
+				histItems = append(histItems, it)
+			} else {
+				singles = append(singles, it)
+			}
+		}
+		items = keyItems
+		for i := 0; i < len(singles) || i < len(histItems) || i < len(pairItems); i++ {
+			if i < len(singles) {
+				items = append(items, singles[i])
+			}
+			if i < len(histItems) {
+				items = append(items, histItems[i])
+			}
+			if i < len(pairItems) {
+				items = append(items, pairItems[i])
+			}
+		}
+	}
 	// one pristine store per (layout, content); every case works on a clone
 	templates := map[string][]*rig.Store{}
 	for _, l := range layouts {
